@@ -59,4 +59,39 @@ Proof.
   rewrite <- Eb, <- Ea. non_commutative_ring.
 Qed.
 
+(* Origin-state correction of Lij (fix b4a4433).  g0: bare Green function, dw: change of the rate matrix, ai a right inverse of
+   1 + g0 dw, G = ai g0 the Dyson Green function, nT / n the null vectors (column / row) of the bare rate matrix, b the bias,
+   c the coefficients of the null vectors in the corrector.  The corrector used by the code,
+       eta = G (b - dw nT c) + nT c ,
+   solves the integral equation of the problem WITH a null-vector component:  eta = g0 (b - dw eta) + nT c. *)
+Theorem originstate_integral_equation g0 dw ai nT b c :
+  (1 + g0 * dw) * ai == 1 ->
+  let eta := ai * g0 * (b - dw * nT * c) + nT * c in
+  eta == g0 * (b - dw * eta) + nT * c.
+Proof.
+  intros H eta.
+  assert (E : (1 + g0 * dw) * eta == g0 * b + nT * c).
+  { unfold eta.
+    transitivity (((1 + g0 * dw) * ai) * g0 * (b - dw * nT * c) + (1 + g0 * dw) * (nT * c)); [non_commutative_ring|].
+    rewrite H. non_commutative_ring. }
+  transitivity ((1 + g0 * dw) * eta - g0 * dw * eta); [non_commutative_ring|].
+  rewrite E. non_commutative_ring.
+Qed.
+
+(* ... and the coefficients c = S (n b - uT G b), with S a right inverse of  M = n u - uT G u  (u = dw nT, uT = n dw),
+   are exactly those for which no net flux leaves through the null vectors:  n (b - dw eta) = 0. *)
+Theorem originstate_no_flux g0 dw ai n nT b s :
+  let G := ai * g0 in let u := dw * nT in let uT := n * dw in
+  (n * u - uT * G * u) * s == 1 ->
+  let c := s * (n * b - uT * G * b) in
+  let eta := G * (b - u * c) + nT * c in
+  n * (b - dw * eta) == 0.
+Proof.
+  intros G u uT H c eta.
+  transitivity ((n * b - uT * G * b) - (n * u - uT * G * u) * c); [unfold eta, u, uT; non_commutative_ring|].
+  unfold c.
+  transitivity ((n * b - uT * G * b) - ((n * u - uT * G * u) * s) * (n * b - uT * G * b)); [non_commutative_ring|].
+  rewrite H. non_commutative_ring.
+Qed.
+
 End NC.
